@@ -68,7 +68,21 @@ def dispatch_tables(spec):
             else:
                 ns[h] = (lambda nm: lambda self, o: nm)(h)
             ns[h].__name__ = h
-        A = type(f"A{si}", (base,), ns)
+        if spec.get("derived") and len(hs) >= 2:
+            # the algorithm class under test derives from another algorithm class that was instantiated (and
+            # dispatched) before: it must build its own table, not reuse the parent's
+            hb = hs[:1] if spec["derived"] == "parent_first" else hs
+            B = type(f"B{si}", (base,), {h: ns[h] for h in hb})
+            if spec["derived"] == "parent_first":
+                B()
+                A = type(f"D{si}", (B,), {h: ns[h] for h in hs[1:]})
+            else:
+                # child first, then the parent class itself is instantiated: the parent must not see the child's table
+                D = type(f"D{si}", (B,), {"expr" if "expr" not in hs else "operator": (lambda self, o, *ops: "child")})
+                D()
+                A = B
+        else:
+            A = type(f"A{si}", (base,), ns)
         inst = A()
         for ci, c in enumerate(classes):
             hnd = inst._handlers[c._ufl_typecode_]
@@ -116,6 +130,9 @@ def specs(tier):
                   task_timeout=400))
     S.append(dict(name="dispatch/MultiFunction", kind="tables", base="mf"))
     S.append(dict(name="dispatch/Transformer", kind="tables", base="tr"))
+    for b in ("mf", "tr"):
+        for d in ("parent_first", "child_first"):
+            S.append(dict(name=f"dispatch/{'MultiFunction' if b == 'mf' else 'Transformer'}/derived-{d}", kind="tables", base=b, derived=d))
     return S
 
 
